@@ -1523,6 +1523,7 @@ def main():
     chk.assumptions = [
         "part A: expressions over the literal syntax (unary, + - * / // % **, ~, comparison chains, and/or/not, in / not in, lists, tuples, maps, negated literals, if-expressions, subscripts, slices, filters and functions with literal keyword arguments, macro calls with keyword arguments, tests); ints from a boundary pool up to 2^128-1, floats by bit pattern (no NaN/inf literals exist), short strings; <= 6 literals: every subset hoisted; 4 undefined behaviours",
         "part D: collection literals (lists, tuples, maps with int/str/bool/none keys incl. duplicates) and calls of two probe callables (function `cargs`, filter `cfilt`: they return what they were given) with positional, keyword, `*x` and `**m` arguments, duplicate keywords, literal and hoisted values; BTreeMap build of the engine (no preserve_order)",
+        "part A representation family: hoisted strings held as Arc<str> / safe / owned / result of `~`, hoisted integers held at every width, in positions where the value is only looked up or compared (never handed back); the harness builds them on request (\"rep\" of a typed value)",
         "part A also runs on the engine built with feature preserve_order (IndexMap maps; C07's target dir): quick = the chain and containment families + 600 random expressions in the release build, thorough = everything in both builds",
         "part E: templates whose STATEMENTS carry the constants - if / elif / for / with / set / autoescape / include / extends / import / from-import / filter-block arguments / macro defaults / call blocks -, with declarations of template-wide effect (blocks used through self.name() or inheritance, macros, set, imports) in taken and untaken branches; one environment with a base, an included and an imported template; literal form against every hoisted subset (<= 6 literals), lenient / strict / chainable",
         "part F: every builtin callable that takes keyword arguments (indent, tojson, groupby, dictsort, sort, unique, map, format, dict, namespace), macros and probe callables that consume keywords conditionally and call assert_all_used; subsets of their keywords incl. unexpected and duplicate ones; the call site runs 2-3 times (loop, macro called repeatedly, one template rendered repeatedly on one environment) with different positional selectors; literal keywords against every hoisted subset",
